@@ -36,8 +36,20 @@ func (s *gRPCServer) Close() error {
 }
 
 func (s *gRPCServer) Shutdown(ctx context.Context) error {
-	s.server.GracefulStop()
-	return nil
+	done := make(chan struct{})
+	go func() {
+		s.server.GracefulStop()
+		close(done)
+	}()
+	select {
+	case <-done:
+		return nil
+	case <-ctx.Done():
+		// open streams did not finish in time: close them so that GracefulStop returns
+		s.server.Stop()
+		<-done
+		return ctx.Err()
+	}
 }
 
 func (s *gRPCServer) Serve(lis net.Listener) error {
